@@ -88,6 +88,7 @@ class Cfg:
                 ops.append(("u", 4, a, 0))
         if alphabet == "control":
             ops.append(("stats", 4, base, 0))  # the statistics are asked for (an observer as an operation)
+            ops.append(("view", 4, base, 0))   # the cache table is looked at
         if alphabet in ("word", "control", "wordz"):
             ops.append(("reset", 4, base, 0))  # what load_program does to the memory system: everything is cleared
         if variant == "mixed":
@@ -191,6 +192,14 @@ class World:
             if checks is not None and got != (self.ref.accesses, self.ref.hits):
                 checks.append(("accesses" if not isinstance(got, tuple) or got[0] != self.ref.accesses else "hits",
                                f"get_cache_stats() (operation of the history) answers (accesses, hits) = {got}, reference {(self.ref.accesses, self.ref.hits)}"))
+            return "ok"
+        if kind == "view":
+            try:
+                mem.cache_repr()
+                self.sim.get_data_cache_entries()
+            except Exception as e:  # noqa
+                if checks is not None:
+                    checks.append(("unexpected-error", f"cache_repr() raised {type(e).__name__}: {e}"))
             return "ok"
         if kind == "table":
             tmp = [] if checks is None else checks
@@ -421,6 +430,8 @@ def opname(op):
         return "get_data_memory_entries()"
     if kind == "stats":
         return "get_cache_stats()"
+    if kind == "view":
+        return "get_data_cache_entries()"
     alias = op[4] if len(op) > 4 else 0
     w = {1: "byte", 2: "halfword", 4: "word"}[width]
     at = f"{a:#x}" + ("" if not alias else (" - 2^32" if alias < 0 else " + 2^32"))
